@@ -197,6 +197,8 @@ struct Polled
     closed: bool,
     /// the run (issuer, run number) whose command caused the removal / despawn
     sender: (u8, u32),
+    /// value of the poll epoch when the event happened: while it is unchanged no poll can have seen the event
+    epoch: u64,
 }
 
 #[derive(Clone, Debug)]
@@ -277,6 +279,9 @@ pub struct Checker<'a>
     gc_guaranteed_this_step: bool,
     in_direct_step: bool,
     in_gc: bool,
+    /// Polls happen at runner boundaries, at explicit poll calls and in `Last`: all visible in the trace. The epoch advances at
+    /// each of them, so "no poll can have happened since X" is decidable.
+    poll_epoch: u64,
     /// entities whose last signal clone was gone when a guaranteed collection started: they must be gone when it is over
     gc_must: Vec<EntId>,
     gc_pending_deadline: bool,
@@ -324,7 +329,7 @@ impl<'a> Checker<'a>
             tokens: vec![None; prog.insts.len()], res: [0, 0, 0], res_t_present: true, payloads: HashMap::new(), pending_immediate_drop: None,
             polled: Vec::new(), postponed: Vec::new(), stack: Vec::new(), tree_depth: 0, seq: 0, sender: (DRIVER, 0),
             wr_keys: [Vec::new(), Vec::new()], sigs: vec![(None, 0); 4], doomed_ents: Vec::new(), resolve_uncertain: Vec::new(), fifo: HashMap::new(),
-            gc_guaranteed_this_step: false, in_direct_step: false, in_gc: false, gc_must: Vec::new(), gc_pending_deadline: false, gc_before: Vec::new(), doomed_in_tree: Vec::new(), sig_harness: [0; 4], deferred_bail: None, bulk_released: 0, bulk_held: 0, bulk_alive: 0, wq: Default::default(), iss_counter: 0, cur_iss: 0, iss_of: HashMap::new(), sys: Default::default(),
+            gc_guaranteed_this_step: false, in_direct_step: false, in_gc: false, poll_epoch: 0, gc_must: Vec::new(), gc_pending_deadline: false, gc_before: Vec::new(), doomed_in_tree: Vec::new(), sig_harness: [0; 4], deferred_bail: None, bulk_released: 0, bulk_held: 0, bulk_alive: 0, wq: Default::default(), iss_counter: 0, cur_iss: 0, iss_of: HashMap::new(), sys: Default::default(),
         }
     }
 
@@ -473,6 +478,7 @@ impl<'a> Checker<'a>
     {
         self.judge_floats(true)?;
         if self.gc_pending_deadline { self.gc_deadline()?; }
+        if matches!(self.trace.get(self.pos), Some(Ev::Runner(..)) | Some(Ev::LastPollBegin) | Some(Ev::LastPollEnd)) { self.poll_epoch += 1; }
         self.pos += 1;
         Ok(())
     }
@@ -666,16 +672,22 @@ impl<'a> Checker<'a>
                     // entity already gone and its event pending: if no poll has seen it yet the watcher is dropped here,
                     // otherwise its reaction is already scheduled and will still run; either is accepted
                     let mut dropped = Vec::new();
+                    let mut certain = Vec::new();
+                    let epoch_now = self.poll_epoch;
                     for p in self.polled.iter_mut()
                     {
                         if !matches!(p.kind, PKind::Despawn) || p.ent != e { continue; }
                         if let Some(pos) = p.must.iter().position(|(i, _)| *i == inst)
                         {
                             let (i, reg) = p.must.remove(pos);
+                            // no poll can have seen the despawn yet: the watcher is still in the table and the revoke removes it for
+                            // certain (C06: the very next trigger application -- the poll -- must not schedule it)
+                            if p.epoch == epoch_now { if let Some(r) = reg { certain.push(r); } continue; }
                             p.extra.push((i, reg));
                             if let Some(r) = reg { dropped.push(r); }
                         }
                     }
+                    for r in certain { self.drop_handle(r); }
                     for r in dropped
                     {
                         let reg = &mut self.regs[r];
@@ -687,13 +699,14 @@ impl<'a> Checker<'a>
             }
             // a removal reactor revoked while a removal event is pending: if it was already scheduled it still runs (C06)
             let rem = match *t { MTrig::Tw(Key::Rem(c)) => Some((None, c)), MTrig::Ent(e, EKind::Rem(c)) => Some((Some(e), c)), _ => None };
+            let self_epoch = self.poll_epoch;
             if let Some((ent, c)) = rem
             {
                 for p in self.polled.iter_mut()
                 {
                     if !matches!(p.kind, PKind::Removal(c2) if c2 == c) { continue; }
                     if let Some(e) = ent { if p.ent != e { continue; } }
-                    if let Some(pos) = p.must.iter().position(|(i, _)| *i == inst) { p.must.remove(pos); p.extra.push((inst, None)); }
+                    if let Some(pos) = p.must.iter().position(|(i, _)| *i == inst) { p.must.remove(pos); if p.epoch != self_epoch { p.extra.push((inst, None)); } }
                 }
             }
         }
@@ -705,7 +718,8 @@ impl<'a> Checker<'a>
         let in_tree = self.tree_depth > 0;
         if in_tree { self.stats.polled_in_tree += 1; }
         let sender = self.sender;
-        self.polled.push(Polled { kind, ent, must, extra, delivered: Vec::new(), in_tree, closed: false, sender });
+        let epoch = self.poll_epoch;
+        self.polled.push(Polled { kind, ent, must, extra, delivered: Vec::new(), in_tree, closed: false, sender, epoch });
     }
 
     fn despawn_ent(&mut self, e: EntId)
@@ -961,6 +975,18 @@ impl<'a> Checker<'a>
     fn removal_order_ok(&self, i: usize, inst: Inst) -> Option<EntId>
     {
         let later = &self.polled[i];
+        if matches!(later.kind, PKind::Despawn)
+        {
+            // despawns caused by one run reach a reactor that watches both entities in the order they happened (an entity is
+            // despawned once, so there is no ambiguity)
+            for j in 0..i
+            {
+                let e = &self.polled[j];
+                if !matches!(e.kind, PKind::Despawn) || e.closed || e.sender != later.sender || e.ent == later.ent || e.sender.0 == 0xFE { continue; }
+                if e.must.iter().any(|(m, _)| *m == inst) { return Some(e.ent); }
+            }
+            return None;
+        }
         let PKind::Removal(c) = later.kind else { return None };
         // events on the same entity are indistinguishable in the trace (remove, re-insert, remove): the attribution of a reaction
         // to one of them is a guess, so only events that are the sole pending one for their entity are judged
@@ -1153,6 +1179,13 @@ impl<'a> Checker<'a>
         {
             RK_RUN =>
             {
+                if let Some(i) = known
+                {
+                    if self.insts[i as usize].once_fired
+                    {
+                        fail!(self, "C15", "once-entity-leaked", &["C07", "C18"], "the runner found the spent one-off reactor {i} still in place and started it again: after its single run its entity must be gone");
+                    }
+                }
                 let Some(Ev::Body { inst, s, .. }) = self.peek()?.cloned() else { return self.unexpected("body of the system that was just started"); };
                 match self.insts[inst as usize].real
                 {
@@ -1202,7 +1235,7 @@ impl<'a> Checker<'a>
                         if let Some(earlier) = self.removal_order_ok(pi, inst)
                         {
                             let (a, b) = (self.real(earlier), self.real(self.polled[pi].ent));
-                            fail!(self, "C12", "removal-order-violated", &["C09"], "instance {inst} reacted to the removal on {b:#x} before the removal on {a:#x}, which the same run caused earlier and which it must also react to");
+                            fail!(self, "C12", "removal-order-violated", &["C09"], "instance {inst} reacted to the removal / despawn of {b:#x} before that of {a:#x}, which the same run caused earlier and which it must also react to");
                         }
                         d = Some(self.take_polled(pi, inst));
                     }
@@ -2022,6 +2055,7 @@ impl<'a> Checker<'a>
             }
             WOp::Poll =>
             {
+                self.poll_epoch += 1;
                 self.stats.guaranteed_poll += 1;
                 // inside a tree the reactions may be postponed (invisibly) until busy ancestors finish: the deadline is the tree's end
                 // (a poll inside a tree guarantees nothing new: reactions may already be queued behind the current one, or get postponed)
@@ -2303,6 +2337,7 @@ impl<'a> Checker<'a>
 
     fn update(&mut self, frame: u32) -> Res<()>
     {
+        self.poll_epoch += 1;
         self.stats.frames += 1;
         let prog: &'a Program = self.prog;
         let n = prog.frame_systems.len();
